@@ -372,7 +372,9 @@ func c18BuildClasses(c *engine.C) ([]*jg.Class, map[*jg.Class][]c18Method, jg.La
 
 var c18Names = []string{"findUser", "find", "findUserById", "getName", "x", "saveOrderItem", "orderItem", "calculateTotalPrice", "user",
 	// names that merely begin with the letters of an accessor prefix, and real accessors of acronyms
-	"setup", "getall", "settings", "setURL", "getname", "set"}
+	"setup", "getall", "settings", "setURL", "getname", "set",
+	// digits and underscores inside a name (how such names are cut into words is not compared, see below)
+	"parseV2_header", "header__blog", "_lead", "x2"}
 
 func refSegment(name string) []string {
 	var words []string
@@ -418,6 +420,12 @@ func c18ConceptGen(c *engine.C) engine.Case {
 		for _, w := range constants.TechStopWords {
 			stop[w] = true
 		}
+		// names with digits or underscores: the statement does not say how they are cut; only "no empty word,
+		// no stop word, key order" is required of the listing then
+		fuzzy := false
+		for _, nm := range names {
+			fuzzy = fuzzy || strings.ContainsAny(nm, "_0123456789")
+		}
 		want := map[string]int{}
 		total := 0
 		for _, nm := range names {
@@ -440,8 +448,14 @@ func c18ConceptGen(c *engine.C) engine.Case {
 			if stop[p.Key] {
 				res.Violations = append(res.Violations, engine.V("concept", "stop-word-listed", "stop word %q listed", p.Key))
 			}
+			if strings.TrimSpace(p.Key) == "" {
+				res.Violations = append(res.Violations, engine.V("concept", "empty-word-listed", "an empty word is listed (%d times) for the method names %v; listed %v", p.Value, names, rows))
+			}
 		}
 		res.Outcome = strings.Join(rows, " ")
+		if fuzzy {
+			return res
+		}
 		got := map[string]int{}
 		for _, p := range pl {
 			got[p.Key] += p.Value
